@@ -2,8 +2,10 @@
 package main
 
 import (
+	"fmt"
 	"net/http"
 	"net/http/httptest"
+	"os"
 
 	"c19h/probe"
 
@@ -28,7 +30,10 @@ func main() {
 				}))
 			}
 			e := gin.New()
-			e.Use(sgin.SentinelMiddleware(opts...))
+			// a second middleware after the adapter: gin's Next loop falls into it whenever the adapter returns
+			// without aborting, so it must not run for a blocked request (it counts as the wrapped handler's side)
+			after := 0
+			e.Use(sgin.SentinelMiddleware(opts...), func(c *gin.Context) { after++; c.Next() })
 			e.GET("/x", func(c *gin.Context) {
 				if err := r.InHandler(); err != nil {
 					_ = c.AbortWithError(http.StatusInternalServerError, err)
@@ -41,6 +46,9 @@ func main() {
 			r.Guard(func() { e.ServeHTTP(w, req) })
 			if !custom && w.Code == http.StatusTooManyRequests {
 				r.Rejected()
+			}
+			if sc.Blocked && after > 0 {
+				fmt.Fprintf(os.Stderr, "note %s blocked %s: the middleware after the adapter ran %d time(s)\n", key, sc.Handler, after)
 			}
 			r.Finish()
 		}
